@@ -550,6 +550,77 @@ async fn session(seed: u64, idx: u64) -> Vec<Outcome> {
             _ => fail(format!("served database and embedded one disagree on success for {}", q), "http-served-differs"),
         }
     }
+    // several queries in one request: responses[i] must answer queries[i] (a slow query first)
+    {
+        let big = gen_batch(&mut r, "big", 1500, 0);
+        let _ = client.post(format!("{}/insert_bin", url)).body(big.serialize()).send().await;
+        embedded.ingest_efficient(big).await;
+        let multi = [
+            "SELECT s, f, COUNT(1), SUM(n), MAX(id) FROM big ORDER BY s, f",
+            "SELECT COUNT(1) FROM big",
+            "SELECT id, n FROM big WHERE n > 100 ORDER BY id LIMIT 7",
+            "SELECT MIN(id) FROM t",
+        ];
+        let mut refs = vec![];
+        for q in multi.iter() {
+            refs.push(embedded.run_query(q, false, true, vec![]).await);
+        }
+        for round in 0..3 {
+            for binary in [false, true] {
+                let req = MultiQueryRequest {
+                    queries: multi.iter().map(|q| q.to_string()).collect(),
+                    encoding_opts: if binary { Some(EncodingOpts { xor_float_compression: round == 1, mantissa: None, full_precision_cols: HashSet::new() }) } else { None },
+                };
+                match client.post(format!("{}/multi_query_cols", url)).json(&req).send().await {
+                    Ok(resp) if resp.status().is_success() => {
+                        if binary {
+                            let bytes = resp.bytes().await.unwrap_or_default();
+                            match MultiQueryResponse::deserialize(&bytes) {
+                                Err(e) => fail(format!("binary multi response unreadable: {}", e), "http-binary-unreadable"),
+                                Ok(m) => {
+                                    if m.responses.len() != multi.len() {
+                                        fail(format!("{} responses for {} queries", m.responses.len(), multi.len()), "http-multi-count");
+                                    } else {
+                                        for (i, (resp, reference)) in m.responses.iter().zip(refs.iter()).enumerate() {
+                                            if let Ok(reference) = reference {
+                                                for (name, want) in output_cols(reference) {
+                                                    match resp.columns.get(&name).and_then(cells_of_api) {
+                                                        Some(got) if got == want => {}
+                                                        other => fail(format!("multi-query (binary) response {} does not answer query {} ({}): column {} = {:?}", i, i, multi[i], name, other.map(|v| v.len())), "http-multi-order"),
+                                                    }
+                                                }
+                                            }
+                                        }
+                                        checked += 1;
+                                    }
+                                }
+                            }
+                        } else {
+                            let v: serde_json::Value = resp.json().await.unwrap_or(serde_json::Value::Null);
+                            let arr = v.as_array().cloned().unwrap_or_default();
+                            if arr.len() != multi.len() {
+                                fail(format!("{} JSON responses for {} queries", arr.len(), multi.len()), "http-multi-count");
+                            } else {
+                                for (i, (resp, reference)) in arr.iter().zip(refs.iter()).enumerate() {
+                                    if let Ok(reference) = reference {
+                                        let names: Vec<String> = resp["colnames"].as_array().map(|a| a.iter().map(|x| x.as_str().unwrap_or("").to_string()).collect()).unwrap_or_default();
+                                        if names != reference.colnames {
+                                            fail(format!("multi-query (JSON) response {} has columns {:?}, query {} ({}) has {:?}", i, names, i, multi[i], reference.colnames), "http-multi-order");
+                                        } else {
+                                            compare_json_cols(resp, reference, multi[i], "/multi_query_cols(json,multi)", &mut fail);
+                                        }
+                                    }
+                                }
+                                checked += 1;
+                            }
+                        }
+                    }
+                    Ok(resp) => fail(format!("/multi_query_cols (multi) answered {}", resp.status()), "http-multi-status"),
+                    Err(e) => fail(format!("/multi_query_cols (multi) transport error {}", e), "http-multi-transport"),
+                }
+            }
+        }
+    }
     // the server keeps answering after failures
     match client.post(format!("{}/query_cols", url)).json(&QueryRequest { query: "SELECT COUNT(1) FROM t".to_string() }).send().await {
         Ok(resp) if resp.status().is_success() => {}
